@@ -1,11 +1,12 @@
-"""Reproduction of finding Y-3.1 (C06): with the off-season simulated, the day of the latest
-harvest date is still a growing-season day of the season whose summary row has already been
-written; its irrigation is not in `Seasonal irrigation (mm)`.
+"""Regression check of finding Y-3.1 (C06), fixed by repository commit d260679 (growing-season test
+`harvest_date > step_start_time`): with the off-season simulated, the day of the latest harvest date
+used to be a growing-season day of the season whose summary row had already been written; its
+irrigation (10 mm here) was not in `Seasonal irrigation (mm)` (IrrTot 450.0, sum over all rows 460.0).
 
 Run: /venv/bin/python -W ignore harness/tests/repro_summary_post_harvest.py
-Expected output (seasons 0 and 1): IrrTot 450.0, sum over all rows of the season 460.0,
-sum up to the harvest step 450.0  (Lean: `Aqua.run_summary_irrigation`,
-`Aqua.RunLiftExample.post_harvest_irrigation`).
+Expected output now (every season): IrrTot 450.0 = sum over all rows of the season = sum up to the
+harvest step, no growing-season row after the harvest step  (Lean: `Aqua.run_summary_irrigation`,
+`Aqua.run_no_growing_day_after_harvest`, `Aqua.RunLiftExample.harvest_date_is_fallow`).
 """
 import warnings
 
@@ -24,6 +25,7 @@ def main():
     m.run_model(till_termination=True)
     fs = m.get_simulation_results()
     fl = m.get_water_flux()
+    ws = m.get_water_storage()
     bad = 0
     for k in sorted(set(fs["Season"])):
         rows = fl[fl["season_counter"] == k]
@@ -33,7 +35,13 @@ def main():
         s_upto = float(rows[rows["time_step_counter"] <= h]["IrrDay"].sum())
         print(f"season {k}: IrrTot {tot}  sum over all rows of the season {s_all}  "
               f"sum up to the harvest step {s_upto}")
-        assert abs(tot - s_upto) < 1e-9, "run_summary_irrigation violated"
+        assert abs(tot - s_upto) < 1e-9, "run_summary_irrigation_upto violated"
+        assert abs(tot - s_all) < 1e-9, "run_summary_irrigation violated"
+        late = rows[rows["time_step_counter"] > h]
+        gs_late = ws[ws["time_step_counter"].isin(late["time_step_counter"])]["growing_season"]
+        assert float(gs_late.sum()) == 0 and float(late["dap"].sum()) == 0 \
+            and float(late["IrrDay"].sum()) == 0, "run_no_growing_day_after_harvest violated"
+        print(f"   rows of the season after the harvest step: {len(late)} (all fallow)")
         bad += abs(tot - s_all) > 1e-9
     print("seasons whose total differs from the sum over all rows of the season:", bad)
 
